@@ -8,6 +8,7 @@ import (
 	"testing/synctest"
 	"time"
 
+	core "github.com/envoyproxy/go-control-plane/envoy/config/core/v3"
 	endpointv3 "github.com/envoyproxy/go-control-plane/envoy/config/endpoint/v3"
 	"google.golang.org/protobuf/proto"
 
@@ -40,12 +41,17 @@ type mEp struct {
 	weight   uint32
 	healthy  bool
 	sa       string
+	cluster  string // cluster of the reporting registry
+	local    bool   // discoverable only from proxies of the same cluster (what MCS assigns to cluster-local endpoints)
 }
 
 func (e mEp) String() string {
 	h := "H"
 	if !e.healthy {
 		h = "U"
+	}
+	if e.local {
+		h += "/only-" + e.cluster
 	}
 	return fmt.Sprintf("%s/%s/%s/w%d/%s", e.addr, e.version, e.locality, e.weight, h)
 }
@@ -55,7 +61,7 @@ func (e mEp) istio(ns string) *model.IstioEndpoint {
 	if !e.healthy {
 		hs = model.UnHealthy
 	}
-	return &model.IstioEndpoint{
+	ep := &model.IstioEndpoint{
 		Addresses:       []string{e.addr},
 		ServicePortName: "http",
 		EndpointPort:    8080,
@@ -67,6 +73,11 @@ func (e mEp) istio(ns string) *model.IstioEndpoint {
 		Namespace:       ns,
 		WorkloadName:    "wl-" + e.addr,
 	}
+	if e.local {
+		ep.Locality.ClusterID = cluster.ID(e.cluster)
+		ep.DiscoverabilityPolicy = model.DiscoverableFromSameCluster
+	}
+	return ep
 }
 
 func runC13b(t *testing.T, r *engine.Run) {
@@ -104,6 +115,16 @@ func runC13b(t *testing.T, r *engine.Run) {
 	c := clientMenu[0].build(false)
 	w.addClient(c)
 	w.connect(c, inst, false)
+	// a second proxy, identical but for its cluster: cluster-local endpoints of registry 0 are visible to it only
+	c0 := clientMenu[0].build(false)
+	c0.name += "-c0"
+	c0md := &model.NodeMetadata{Namespace: "a", Labels: map[string]string{"app": "foo"}, ClusterID: "c0", IstioVersion: "1.30.0"}
+	c0.node = &core.Node{Id: "sidecar~10.3.0.9~foo-c0.a~a.svc.cluster.local", Metadata: c0md.ToStruct(), Locality: c.node.Locality}
+	twoClusters := tp.Bool(1, 2, "twoClusters")
+	if twoClusters {
+		w.addClient(c0)
+		w.connect(c0, inst, false)
+	}
 	if !w.quiesce(inst, w.clients) {
 		r.Inconclusive = "no initial quiescence"
 		return
@@ -154,6 +175,8 @@ func runC13b(t *testing.T, r *engine.Run) {
 						weight:   uint32(1 + tp.Choose(3, "w")),
 						healthy:  !tp.Bool(1, 4, "unhealthy"),
 						sa:       []string{"", "sa1"}[tp.Choose(2, "sa")],
+						cluster:  fmt.Sprintf("c%d", reg),
+						local:    twoClusters && tp.Bool(1, 3, "clusterLocal"),
 					})
 				}
 			}
@@ -212,11 +235,13 @@ func runC13b(t *testing.T, r *engine.Run) {
 		var acts []string
 		acts = append(acts, parked...)
 		acts = append(acts, parked...)
-		if w.hasParkedSend(c) {
-			acts = append(acts, "resp")
-		}
-		if w.canDeliverReq(c) {
-			acts = append(acts, "req")
+		for ci, cl := range w.clients {
+			if w.hasParkedSend(cl) {
+				acts = append(acts, fmt.Sprintf("resp:%d", ci))
+			}
+			if w.canDeliverReq(cl) {
+				acts = append(acts, fmt.Sprintf("req:%d", ci))
+			}
 		}
 		if len(parked) == 0 {
 			break
@@ -224,12 +249,15 @@ func runC13b(t *testing.T, r *engine.Run) {
 		acts = append(acts, "gap")
 		a := acts[tp.Choose(len(acts), "act")]
 		tp.Note(a)
-		switch a {
-		case "resp":
-			w.deliverResp(c)
-		case "req":
-			w.deliverReq(c)
-		case "gap":
+		var ci int
+		switch {
+		case strings.HasPrefix(a, "resp:"):
+			fmt.Sscanf(a, "resp:%d", &ci)
+			w.deliverResp(w.clients[ci])
+		case strings.HasPrefix(a, "req:"):
+			fmt.Sscanf(a, "req:%d", &ci)
+			w.deliverReq(w.clients[ci])
+		case a == "gap":
 			w.gap(tp, db)
 		default:
 			for _, k := range parked {
@@ -254,65 +282,79 @@ func runC13b(t *testing.T, r *engine.Run) {
 		return
 	}
 	r.Probe("checkpoints")
-	// ---- membership oracle
-	held := c.heldView()[v3.EndpointType]
-	names := make([]string, 0, len(held))
-	for n := range held {
-		names = append(names, n)
-	}
-	sort.Strings(names)
-	for _, cn := range names {
-		_, subset, host, port := model.ParseSubsetKey(cn)
-		if port != 80 || !contains(hosts, string(host)) {
-			continue
+	// ---- membership oracle (per proxy: a cluster-local endpoint is visible only from its own cluster)
+	for _, cl := range w.clients {
+		proxyCluster := "Kubernetes"
+		if cl == c0 {
+			proxyCluster = "c0"
 		}
-		want := map[string]mEp{}
-		for reg := 0; reg < nreg; reg++ {
-			for _, e := range last[reg][string(host)] {
-				if !e.healthy {
-					continue
-				}
-				if subset != "" && e.version != subset {
-					continue
-				}
-				want[e.addr] = e
+		held := cl.heldView()[v3.EndpointType]
+		names := make([]string, 0, len(held))
+		for n := range held {
+			names = append(names, n)
+		}
+		sort.Strings(names)
+		for _, cn := range names {
+			_, subset, host, port := model.ParseSubsetKey(cn)
+			if port != 80 || !contains(hosts, string(host)) {
+				continue
 			}
-		}
-		cla := &endpointv3.ClusterLoadAssignment{}
-		if err := proto.Unmarshal(held[cn], cla); err != nil {
-			r.Fail("c13.bad_cla", cn, "cannot parse %s", cn)
-			return
-		}
-		got := map[string]string{}
-		for _, l := range cla.Endpoints {
-			loc := l.Locality.GetRegion() + "/" + l.Locality.GetZone()
-			var sum uint32
-			for _, le := range l.LbEndpoints {
-				a := le.GetEndpoint().GetAddress().GetSocketAddress()
-				wgt := le.GetLoadBalancingWeight().GetValue()
-				sum += wgt
-				got[a.GetAddress()] = fmt.Sprintf("%s:%d@%s/w%d", a.GetAddress(), a.GetPortValue(), loc, wgt)
+			want := map[string]mEp{}
+			for reg := 0; reg < nreg; reg++ {
+				for _, e := range last[reg][string(host)] {
+					if !e.healthy {
+						continue
+					}
+					if subset != "" && e.version != subset {
+						continue
+					}
+					if e.local && e.cluster != proxyCluster {
+						continue
+					}
+					want[e.addr] = e
+				}
 			}
-			if lw := l.GetLoadBalancingWeight().GetValue(); lw != sum {
-				r.Fail("c13.locality_weight", cn, "cluster %s locality %s: locality weight %d != sum of endpoint weights %d", cn, loc, lw, sum)
+			cla := &endpointv3.ClusterLoadAssignment{}
+			if err := proto.Unmarshal(held[cn], cla); err != nil {
+				r.Fail("c13.bad_cla", cn, "cannot parse %s", cn)
+				return
+			}
+			got := map[string]string{}
+			for _, l := range cla.Endpoints {
+				loc := l.Locality.GetRegion() + "/" + l.Locality.GetZone()
+				var sum uint32
+				for _, le := range l.LbEndpoints {
+					a := le.GetEndpoint().GetAddress().GetSocketAddress()
+					wgt := le.GetLoadBalancingWeight().GetValue()
+					sum += wgt
+					got[a.GetAddress()] = fmt.Sprintf("%s:%d@%s/w%d", a.GetAddress(), a.GetPortValue(), loc, wgt)
+				}
+				if lw := l.GetLoadBalancingWeight().GetValue(); lw != sum {
+					r.Fail("c13.locality_weight", cn, "cluster %s locality %s: locality weight %d != sum of endpoint weights %d", cn, loc, lw, sum)
+					return
+				}
+			}
+			wantS := map[string]string{}
+			for a, e := range want {
+				wantS[a] = fmt.Sprintf("%s:%d@%s/w%d", a, 8080, e.locality, e.weight)
+				if e.local {
+					r.Probe("cluster_local_endpoint_compared")
+				}
+			}
+			r.Probe("clusters_compared")
+			if len(want) > 0 {
+				r.Probe("nonempty_clusters_compared")
+			}
+			gk, wk := sortedMapVals(got), sortedMapVals(wantS)
+			if strings.Join(gk, " ") != strings.Join(wk, " ") {
+				r.Fail("c13.membership", shortSubset(subset), "cluster %s: proxy %s (cluster %s) holds %v, the registries' last healthy reports visible to it are %v", cn, cl.name, proxyCluster, gk, wk)
 				return
 			}
 		}
-		wantS := map[string]string{}
-		for a, e := range want {
-			wantS[a] = fmt.Sprintf("%s:%d@%s/w%d", a, 8080, e.locality, e.weight)
-		}
-		r.Probe("clusters_compared")
-		if len(want) > 0 {
-			r.Probe("nonempty_clusters_compared")
-		}
-		gk, wk := sortedMapVals(got), sortedMapVals(wantS)
-		if strings.Join(gk, " ") != strings.Join(wk, " ") {
-			r.Fail("c13.membership", shortSubset(subset), "cluster %s: proxy holds %v, the registries' last healthy reports are %v", cn, gk, wk)
-			return
-		}
 	}
-	w.cut(c)
+	for _, cl := range w.clients {
+		w.cut(cl)
+	}
 }
 
 func sortedMapVals(m map[string]string) []string {
